@@ -108,6 +108,27 @@ def case_locality(case):
         fc = srf.mesh(mesh, points="centroids", direction=direction, seed=seed, name="fldc")
         fcu = np.array(_srf(case, seed)(cen))
         r.close("meshio mesh centroids == unstructured at the centroids", np.array(fc), fcu, rtol=1e-12, atol=ATOL)
+        # several cell blocks of different types: every block's cell data belongs to its own centroids
+        if d == 2:
+            blocks = [("triangle", np.array([[0, 1, 2], [1, 2, 3]])), ("quad", np.array([[0, 1, 3, 4]])), ("line", np.array([[2, 4], [0, 3], [1, 4]]))]
+        else:
+            blocks = [("tetra", np.array([[0, 1, 2, 3]])), ("pyramid", np.array([[1, 2, 3, 4, 5]])), ("line", np.array([[0, 5], [2, 4]]))]
+        mesh2 = meshio.Mesh(mp, blocks)
+        srf.mesh(mesh2, points="centroids", direction=direction, seed=seed, name="fb")
+        fresh = _srf(case, seed)
+        for bi, (ctype, conn) in enumerate(blocks):
+            cen = np.array([mp[c].mean(axis=0) for c in conn]).T[:d]
+            r.close("meshio cell data of every cell block == unstructured at that block's centroids", np.array(mesh2.cell_data["fb"][bi]).T if vec else np.array(mesh2.cell_data["fb"][bi]), np.array(fresh(cen, seed=seed)), rtol=1e-12, atol=ATOL, block=ctype)
+        srf.mesh(mesh2, points="points", direction=direction, seed=seed, name="fp")
+        r.close("meshio point data == unstructured at the mesh points", np.array(mesh2.point_data["fp"]).T if vec else np.array(mesh2.point_data["fp"]), fu, rtol=1e-12, atol=ATOL)
+        if d == 2:
+            # 2-D field on a mesh lying in the x-z plane
+            mp3 = np.column_stack([flat[0], np.full(flat.shape[1], 7.0), flat[1]])
+            mesh3 = meshio.Mesh(mp3, blocks)
+            srf.mesh(mesh3, points="centroids", direction="xz", seed=seed, name="fz")
+            for bi, (ctype, conn) in enumerate(blocks):
+                cen = np.array([mp3[c].mean(axis=0) for c in conn]).T[[0, 2]]
+                r.close("meshio mesh in the x-z plane (direction='xz'): cell data == unstructured at (x, z) of the centroids", np.array(mesh3.cell_data["fz"][bi]).T if vec else np.array(mesh3.cell_data["fz"][bi]), np.array(fresh(cen, seed=seed)), rtol=1e-12, atol=ATOL, block=ctype)
     # seed value semantics: numpy integer / python int of the same value
     f_np = np.array(_srf(case, np.int64(seed))(pts))
     r.close("seed given as numpy integer == python int", f_np, full, rtol=0, atol=0)
